@@ -66,21 +66,21 @@ def cases(ctx):
         prog = bytes(z) + G.rbytes(rng, ln - z)
         exp = spec_encode(hrp(net), ver, prog)
         ctx.count(f'addr-{ty}-{net}')
-        yield Case(f'sw_addr {ty}/{nh(net)} {ver} {hx(prog)}', 'ms', nontrivial=net != 'testnet', tag='addr',
+        yield Case(f'sw_addr {ty}/{nh(net)} {ver} {hx(prog)}', 'gms', nontrivial=net != 'testnet', tag='addr',
                    spec=lambda ans, exp=exp: (f's:raw ok {sh(exp)}', ans))
         if rng.random() < 0.3:
             net2 = rng.choice([n for n in NETS if n != net])
             exp2 = spec_encode(hrp(net2), ver, prog)
-            yield Case(f'sw_addr {ty}/{nh(net2)} {ver} {hx(prog)}', 'ms', nontrivial=True, tag='addr-other-net',
+            yield Case(f'sw_addr {ty}/{nh(net2)} {ver} {hx(prog)}', 'gms', nontrivial=True, tag='addr-other-net',
                        spec=lambda ans, exp2=exp2: (f's:raw ok {sh(exp2)}', ans))
         for s in (exp, exp.upper()):
-            yield Case(f'sw_decode {ty}/{nh(net)} {ver} {sh(s)}', 'ms', nontrivial=net != 'testnet', tag='recreate',
+            yield Case(f'sw_decode {ty}/{nh(net)} {ver} {sh(s)}', 'gms', nontrivial=net != 'testnet', tag='recreate',
                        spec=lambda ans, prog=prog: (f's:raw ok {hx(prog)}', ans))
             yield Case(f'is_bech32 {sh(s)}', 'ms', nontrivial=True, tag='predicate', spec=lambda ans: ('s:raw ok 1', ans))
         onet = rng.choice([n for n in NETS if hrp(n) != hrp(net)])
-        yield Case(f'sw_decode {ty}/{nh(onet)} {ver} {sh(exp)}', 'ms', nontrivial=True, tag='reject-same-string-other-net', spec=lambda ans: ('s:raw err', ans))
+        yield Case(f'sw_decode {ty}/{nh(onet)} {ver} {sh(exp)}', 'gms', nontrivial=True, tag='reject-same-string-other-net', spec=lambda ans: ('s:raw err', ans))
         oty = rng.choice([t for t in KIND if KIND[t][0] != ver])
-        yield Case(f'sw_decode {oty}/{nh(net)} {KIND[oty][0]} {sh(exp)}', 'ms', nontrivial=True, tag='reject-same-string-other-class', spec=lambda ans: ('s:raw err', ans))
+        yield Case(f'sw_decode {oty}/{nh(net)} {KIND[oty][0]} {sh(exp)}', 'gms', nontrivial=True, tag='reject-same-string-other-class', spec=lambda ans: ('s:raw err', ans))
         good.append((ty, net, ver, prog, exp))
     for ty, net, ver, prog, s in good[:ctx.n(60, 3000)]:
         muts = []
@@ -116,7 +116,7 @@ def cases(ctx):
         muts.append(('other-version', spec_encode(hrp(net), 1 - ver, prog) if ln_ok(1 - ver, prog) else s[:-2]))
         for kind, m in muts:
             ctx.count('reject-' + kind)
-            yield Case(f'sw_decode {ty}/{nh(net)} {ver} {sh(m)}', 'ms', nontrivial=True, tag='reject-' + kind,
+            yield Case(f'sw_decode {ty}/{nh(net)} {ver} {sh(m)}', 'gms', nontrivial=True, tag='reject-' + kind,
                        spec=lambda ans: ('s:raw err', ans))
             if kind in ('unicode-confusable', 'mixed-case', 'badchar', 'truncate'):
                 yield Case(f'is_bech32 {sh(m)}', 'ms', nontrivial=True, tag='predicate-' + kind, spec=lambda ans: ('s:raw ok 0', ans))
